@@ -22,3 +22,11 @@ package sniffing
 //@     invariant 0 <= i && i <= search.Len()
 //@   loop 2
 //@     invariant 0 <= i && i + 6 <= j && j <= iNextField + 65535 && iNextField <= search.Len() && iNextField == i + 4 + extLength
+
+// C18 (normalisation of a sniffed host): lower-cased and trimmed; a value ending in ']' is a bracketed
+// literal and loses its brackets; a host:port value loses its port; anything else loses a trailing dot.
+//@ func NormalizeDomain
+//@   let h() = strings.ToLower(strings.TrimSpace(host))
+//@   ensures strings.HasSuffix(h(), "]") ==> result == strings.Trim(h(), "[]")
+//@   ensures !strings.HasSuffix(h(), "]") && nth(net.SplitHostPort(h()), 2) == nil ==> result == nth(net.SplitHostPort(h()), 0)
+//@   ensures !strings.HasSuffix(h(), "]") && nth(net.SplitHostPort(h()), 2) != nil ==> result == strings.TrimSuffix(h(), ".")
